@@ -17,7 +17,7 @@ from fractions import Fraction as Fr
 import t1
 import vlib
 
-PROPS = ["TfelVerif.C12.Props"]
+PROPS = ["TfelVerif.C12.Mono1", "TfelVerif.C12.Mono2", "TfelVerif.C12.Props", "TfelVerif.C12.PropsRK"]
 INF = float("inf")
 NAN = float("nan")
 
